@@ -89,7 +89,8 @@ def rich_program(draw):
         num += 10
         classes.add("has_dim")
     stmts = []
-    for n in names:
+    # the same base name may occur as numeric array, string array and scalars at once (N(1), N$(1), N, N$ are four variables)
+    for n in names + draw(st.lists(st.sampled_from(names), max_size=4)):
         kind = draw(st.sampled_from(["arr", "sarr", "svar", "var", "fn"]))
         if kind == "arr":
             stmts.append("%s(%d)=%d" % (n, draw(st.integers(0, 10)), draw(st.integers(0, 99))))
@@ -235,6 +236,19 @@ def check_case(case):
                     "output differs between PYTHONHASHSEED=%s and %s for %r" % (ref[0], hs, case["source"][:200]), case
                 )
         return None
+    if kind == "decoder_history":
+        check_decoder_history(case)
+        return None
+    if kind == "history_vs_fresh":
+        seen = {}
+        for step in case["steps"]:
+            if step[0] == "conv":
+                seen.setdefault(digest(["conv", step[1], step[2]]), conv_digest(step[1], step[2]))
+        req = case["request"]
+        fresh = run_batch_under_seed({"programs": [[req[1], req[2]]], "fixtures": []}, 0)[0]
+        if seen.get(digest(["conv", req[1], req[2]])) != fresh:
+            raise Violation("a conversion inside a history gives different bytes than the same request in a fresh process", case)
+        return None
     if kind == "history":
         seen = {}
         with tool.scratch_dir() as d:
@@ -314,7 +328,7 @@ def campaign_hashseed(seed, n, hash_seeds, switches=frozenset()):
     return stats
 
 
-def campaign_history(seed, n, steps, switches=frozenset()):
+def campaign_history(seed, n, steps, switches=frozenset(), fresh_check=True):
     """Rule-based state machine over conversions and decodings."""
     import hypothesis
     from hypothesis import settings, HealthCheck, Phase
@@ -368,6 +382,14 @@ def campaign_history(seed, n, steps, switches=frozenset()):
             s = data.draw(st.sampled_from(convs))
             self._record(digest(["conv", s[1], opts]), conv_digest(s[1], opts), ["conv", s[1], opts])
 
+        @precondition(lambda self: any(s[0] == "conv" for s in self.steps))
+        @rule(data=st.data(), tail=st.sampled_from(["\n9000 REM TAIL", "\n9000 PRINT 1", ":REM X", "\n9000 ZZ(1)=2:YY(2)=3"]))
+        def convert_program_sharing_a_prefix(self, data, tail):
+            convs = [s for s in self.steps if s[0] == "conv"]
+            s = data.draw(st.sampled_from(convs))
+            src = s[1] + tail
+            self._record(digest(["conv", src, s[2]]), conv_digest(src, s[2]), ["conv", src, s[2]])
+
         @rule(k=st.sampled_from([0, 1, 3, 7]))  # cheap fixtures only inside histories
         def decode(self, k):
             self._record("fx%d" % k, decode_fixture(k, self.tmpdir), ["decode", k])
@@ -383,6 +405,25 @@ def campaign_history(seed, n, steps, switches=frozenset()):
             self._record("img" + digest(s[1]), decode_generated_image(s[1], self.tmpdir), s)
 
         def teardown(self):
+            # ground truth: a fresh interpreter converts the distinct requests in reverse order
+            convs = []
+            seen_k = set()
+            for st_ in self.steps:
+                if st_[0] == "conv":
+                    k_ = digest(["conv", st_[1], st_[2]])
+                    if k_ not in seen_k:
+                        seen_k.add(k_)
+                        convs.append((k_, st_))
+            if len(convs) >= 2 and fresh_check:
+                rev = list(reversed(convs))
+                fresh = run_batch_under_seed({"programs": [[s_[1], s_[2]] for _, s_ in rev], "fixtures": []}, 0)
+                for (k_, s_), dg in zip(rev, fresh):
+                    if self.first.get(k_) != dg:
+                        v = Violation("a conversion inside a history of %d steps gave different bytes than the same request in a fresh process (order dependence)"
+                                      % len(self.steps), {"kind": "history_vs_fresh", "steps": list(self.steps), "request": s_})
+                        last["v"] = v
+                        stats.fail(v.detail, v.case)
+                        break
             stats.case(key=self.steps, nontrivial=self.nontrivial, classes=["history_with_interleaved_repeat"] if self.nontrivial else ["history"],
                        sample={"history": [s if s[0] != "conv" else ["conv", s[1][:60] + "...", s[2]] for s in self.steps[:8]]})
             self.tmp.__exit__(None, None, None)
@@ -402,6 +443,77 @@ def campaign_history(seed, n, steps, switches=frozenset()):
     except Violation:
         v = last["v"]
         stats.fail(v.detail, v.case)
+    except BaseException as e:  # noqa
+        if "Flaky" in type(e).__name__ and "v" in last:
+            # state leaking between conversions makes the history itself irreproducible: that is the violation
+            v = last["v"]
+            stats.fail(v.detail + " (results also differed when Hypothesis replayed the same history: state leaks between calls)", v.case)
+        else:
+            raise
+    return stats
+
+
+def _fresh_decode_main():
+    """Runs in a fresh interpreter: decode one generated image, print the digest."""
+    spec = core.jload_bytes(json.load(sys.stdin))
+    with tool.scratch_dir() as d:
+        print(decode_generated_image(spec, d))
+
+
+def fresh_decode(spec):
+    env = dict(os.environ)
+    env["PYTHONHASHSEED"] = "0"
+    p = subprocess.run([sys.executable, "-c", "from vf.props import c12; c12._fresh_decode_main()"], input=core.jdump(spec).encode(),
+                       stdout=subprocess.PIPE, stderr=subprocess.PIPE, env=env, cwd=core.VERIF_ROOT)
+    if p.returncode != 0:
+        raise core.HarnessError("fresh decode failed: " + p.stderr.decode("utf-8", "replace")[-1500:])
+    return p.stdout.decode().strip()
+
+
+@st.composite
+def decoder_histories(draw):
+    fmts = draw(st.lists(st.sampled_from(["cm3", "cm3", "mge", "rat", "vef", "hrs", "max", "pix"]), min_size=2, max_size=4))
+    specs = []
+    for f in fmts:
+        if f == "cm3":
+            specs.append(draw(gi.cm3_spec()))
+        elif f == "mge":
+            specs.append(draw(gi.mge_spec()))
+        elif f == "rat":
+            specs.append(draw(gi.rat_spec(low_nibble_limit=8)))
+        elif f == "vef":
+            specs.append(draw(gi.vef_spec()))
+        elif f == "hrs":
+            specs.append(draw(gi.hrs_spec(options=True, even_width=True)))
+        elif f == "max":
+            specs.append(draw(gi.max_spec(options=True)))
+        else:
+            specs.append(draw(gi.pix_spec()))
+    order = draw(st.lists(st.integers(0, len(specs) - 1), min_size=len(specs) + 1, max_size=len(specs) + 3))
+    return {"kind": "decoder_history", "specs": specs, "order": list(range(len(specs))) + order}
+
+
+def check_decoder_history(case):
+    specs = case["specs"]
+    truth = [fresh_decode(s) for s in specs]
+    with tool.scratch_dir() as d:
+        for pos, i in enumerate(case["order"]):
+            got = decode_generated_image(specs[i], d)
+            if got != truth[i]:
+                raise Violation("decoding image %d (%s) as step %d of a history gives different bytes than decoding it alone in a fresh process"
+                                % (i, specs[i]["fmt"], pos), case)
+
+
+def campaign_decoders(seed, n, switches=frozenset()):
+    stats = Stats()
+
+    def body(case):
+        check_decoder_history(case)
+        fm = [s["fmt"] for s in case["specs"]]
+        stats.case(key=case, nontrivial=True, classes=["decoder_history"] + ["decoder_history_" + f for f in sorted(set(fm))],
+                   sample={"formats": fm, "order": case["order"]})
+
+    core.run_hypothesis(body, decoder_histories(), seed=seed, max_examples=n, stats=stats, shrink=False)
     return stats
 
 
@@ -409,10 +521,12 @@ def plan(tier, seed, switches):
     if tier == "quick":
         return [
             ("campaign_hashseed", [dict(seed=seed, n=150, hash_seeds=[0, 1, 2, 3, 17, 12345, 99991, 4294967295])]),
-            ("campaign_history", [dict(seed=seed, n=20, steps=30)]),
+            ("campaign_history", [dict(seed=seed * 10 + k, n=6, steps=30) for k in range(4)]),
+            ("campaign_decoders", [dict(seed=seed * 10 + k, n=5) for k in range(4)]),
         ]
     hs_all = [0, 1, 2, 3, 17, 12345, 99991, 4294967295] + [7919 * k + 5 for k in range(56)]
     return [
         ("campaign_hashseed", [dict(seed=seed * 1000 + k, n=125, hash_seeds=hs_all[4 * k : 4 * k + 4] + [0]) for k in range(16)]),
         ("campaign_history", [dict(seed=seed * 1000 + k, n=40, steps=50) for k in range(16)]),
+        ("campaign_decoders", [dict(seed=seed * 1000 + k, n=60) for k in range(16)]),
     ]
